@@ -66,7 +66,7 @@ def cfg(tier):
 
 
 def budget(tier):
-    return 3000 if tier == "quick" else 80000
+    return 5000 if tier == "quick" else 80000
 
 
 @st.composite
